@@ -513,6 +513,72 @@ def e2e_engine(pid, spec, tier, seed, workdir, res):
                                        observed=[pretty_line(l)[:400] for _, l in impl.get(cid, [])][:3]))
 
 
+# ---------------------------------------------------------------- the store engine (C14)
+
+def store_engine(pid, spec, tier, seed, workdir, res):
+    """Operation sequences on memcache / fscache / encrypted fscache (with reopen) against the extracted
+    tree model (tie) and the map specification (property)."""
+    known = load_known()
+    out = os.path.join(workdir, 'store')
+    os.makedirs(out, exist_ok=True)
+    cfg = spec['store']
+    n = cfg['n_thorough'] if tier == 'thorough' else cfg['n_quick']
+    env = dict(VERIF_N=str(n), VERIF_SEED=str(seed), VERIF_NOPS=str(cfg.get('nops', 30)),
+               VERIF_MAXVAL=str(cfg['maxval_thorough'] if tier == 'thorough' else cfg['maxval_quick']))
+    rc, log = run_harness('TestStoreOps', env, out)
+    if rc != 0 or not os.path.exists(os.path.join(out, 'simpl.txt')):
+        res['errors'].append('store harness failed: ' + log[-1500:])
+        return
+    rc2, o, e = sh('./modelbin %s > %s' % (os.path.join(out, 'scases.txt'), os.path.join(out, 'smodel.txt')), cwd=MODEL)
+    if rc2 != 0:
+        res['errors'].append('store model failed: ' + e[-800:])
+        return
+    impl = {tuple(l.split()[1:3]): l.strip() for l in open(os.path.join(out, 'simpl.txt'))}
+    mod, spc = {}, {}
+    for l in open(os.path.join(out, 'smodel.txt')):
+        t = l.split()
+        if t[0] == 'SR':
+            mod[(t[1], t[2])] = l.strip()
+        elif t[0] == 'SS':
+            spc[(t[1], t[2])] = 'SR' + l.strip()[2:]
+    cases = {}
+    cur = None
+    for l in open(os.path.join(out, 'scases.txt')):
+        if l.startswith('SCASE'):
+            cur = l.split()[1]; cases[cur] = [l]
+        else:
+            cases[cur].append(l)
+    kinds = res['distribution']
+    for cid, lines in cases.items():
+        res['evaluations'] += 1
+        res['traces_validated'] += 1
+        for l in lines:
+            t = l.split()
+            if t[0] == 'OP':
+                kinds['op:' + t[1] + (':api' if t[-1] == 'A' else '')] = kinds.get('op:' + t[1] + (':api' if t[-1] == 'A' else ''), 0) + 1
+        res['nontrivial'].add(hashlib.sha1(''.join(lines[1:]).encode()).hexdigest())
+    bad_spec = [k for k in impl if impl[k] != spc.get(k)]
+    bad_model = [k for k in impl if impl[k] != mod.get(k)]
+    for k in bad_spec:
+        code = 'C14:api-list-nonutf8' if k[0] == 'st-probe-binarykey-api' and 'efbfbd' in impl[k] else 'C14:map'
+        kf = known_open(pid, code, known)
+        if kf:
+            res['known'].setdefault(kf['id'], dict(finding=kf, count=0, example=k[0]))
+            res['known'][kf['id']]['count'] += 1
+            continue
+        res['violations'].append(dict(kind='monitor', code=code, case=k[0], exchange=int(k[1]),
+                                      payload=dict(store_case=''.join(cases.get(k[0], [])), op_index=int(k[1]),
+                                                   implementation=pretty_line(impl[k])[:600], map_spec=pretty_line(spc.get(k, '-'))[:600])))
+    for k in bad_model:
+        if k in bad_spec:
+            continue
+        res['mismatches'].append(dict(case=k[0], exchange=int(k[1]), why='store model and implementation differ',
+                                      payload=dict(store_case=''.join(cases.get(k[0], [])), implementation=impl[k][:400], model=mod.get(k, '-')[:400])))
+    first = sorted(cases)[1] if len(cases) > 1 else sorted(cases)[0]
+    res['samples'].append(dict(case=first, ops=[pretty_line(l)[:160] for l in cases[first][:8]],
+                               results=[pretty_line(impl[k])[:120] for k in sorted(impl) if k[0] == first][:8]))
+
+
 # ---------------------------------------------------------------- replay files
 
 def write_replay(pid, name, payload):
